@@ -4,3 +4,4 @@ import XPathV.Theorems.C05
 #print axioms XPathV.Theorems.C05.cache_writes_locked
 #print axioms XPathV.Theorems.C05.evaluations_share_no_state
 #print axioms XPathV.Theorems.C05.concurrent_equals_sequential
+#print axioms XPathV.Theorems.C05.function_arguments_cloned_per_call
